@@ -625,6 +625,7 @@ func (p *protocolError) Error() string {
 
 func (c *Conn) heartBeat(ctx context.Context) {
 	sleepTime := 1 * time.Second
+	sleepTime = verifDur("hb_first", c, sleepTime)
 	timer := time.NewTimer(sleepTime)
 	defer timer.Stop()
 
@@ -632,6 +633,7 @@ func (c *Conn) heartBeat(ctx context.Context) {
 
 	for {
 		if failures > 5 {
+			verifConn("hb_giveup", c, nil, failures, 0)
 			c.closeWithError(fmt.Errorf("gocql: heartbeat failed"))
 			return
 		}
@@ -640,11 +642,14 @@ func (c *Conn) heartBeat(ctx context.Context) {
 
 		select {
 		case <-ctx.Done():
+			verifConn("hb_exit", c, nil, failures, 0)
 			return
 		case <-timer.C:
 		}
 
+		verifConn("hb_tick", c, nil, failures, 0)
 		framer, err := c.exec(context.Background(), &writeOptionsFrame{}, nil)
+		verifConnErr("hb_ret", c, nil, failures, err)
 		if err != nil {
 			failures++
 			continue
@@ -653,6 +658,7 @@ func (c *Conn) heartBeat(ctx context.Context) {
 		resp, err := framer.parseFrame()
 		if err != nil {
 			// invalid frame
+			verifConnErr("hb_parsefail", c, nil, failures, err)
 			failures++
 			continue
 		}
@@ -661,11 +667,15 @@ func (c *Conn) heartBeat(ctx context.Context) {
 		case *supportedFrame:
 			// Everything ok
 			sleepTime = 5 * time.Second
+			sleepTime = verifDur("hb_next", c, sleepTime)
 			failures = 0
+			verifConn("hb_ok", c, nil, failures, 0)
 		case error:
 			// TODO: should we do something here?
+			verifConn("hb_errframe", c, nil, failures, 0)
 		default:
 			// the connection is out of step with the server: it can not be used any further
+			verifConn("hb_unknown", c, nil, failures, 0)
 			c.closeWithError(NewErrProtocol("gocql: unknown frame in response to options: %T", resp))
 			return
 		}
